@@ -52,6 +52,7 @@ def run(ck, tier):
     like_with_like(ck, p, byk, "R-C06-exact")
     dialect_first_wins(ck, p, byk, "R-C06-union")
     _glued(ck, p, byk)
+    _contraction(ck, p)
 
 
 def _id(ck, p, byk):
@@ -543,3 +544,37 @@ def _glued(ck, p, byk):
         ck.refuted(rule, key, f.span, "the pattern glues a following period onto %s in any capitalisation, but dictionary.dict lists %s as ordinary words and has no lower-case dotted entry for them (%s): written directly before a full stop these listed words become tokens like `%s.` that match no entry in that spelling and are reported as misspelt, with a span that includes the full stop" % (sorted(words), bad, ", ".join(b.lower() + "." for b in bad), bad[0].lower()))
     else:
         ck.proved(rule, key, f.span, "WordSet literals %s: each has a lower-case dotted entry in dictionary.dict, or its bare form is not a listed word" % sorted(words))
+
+
+# ---------------------------------------------------------------------------------------------------
+def _contraction(ck, p):
+    """`isn't`, `giant's`: the lexer yields word, apostrophe, word; Document::condense_contractions glues
+    them into the one word the dictionary lists.  The pattern engine is greedy and never backtracks, so a
+    repetition step inside the contraction pattern - `(word ')+ word` - swallows `t'` of `isn't'` when a
+    closing quote follows, finds no final word, and the whole match fails: the fragments `isn` and `t`
+    stay separate tokens and are reported as misspelt inside a listed word."""
+    from ..util import fns_by_key
+    rule = "R-C06-contraction"
+    ck.rule(rule, "a listed contraction or possessive is one token wherever it stands: the pattern that Document uses to glue word-apostrophe-word is a plain sequence of single-token steps - no repetition step (RepeatingPattern / then_one_or_more), which the greedy, non-backtracking matcher would let run into a following apostrophe (a closing quote) and so fail on the very contraction in front of it")
+    byk = fns_by_key(p)
+    fs = byk.get("Document::uncached_contraction_pattern") or byk.get("Document::contraction_pattern")
+    if not ck.anchor(rule, "Document::uncached_contraction_pattern", fs):
+        return
+    f = fs[0]
+    ck.saw(f)
+    steps, reps = [], []
+    for g in with_closures(p, f):
+        for bi, t in g.calls():
+            i = norm(inst_of(t) or def_of(t) or "")
+            m = method(t)
+            if "sequence_pattern" in i and m.startswith("then"):
+                steps.append(m)
+            if m in ("then_one_or_more",) or "repeating_pattern" in i.lower() or "RepeatingPattern" in str(t.get("f")):
+                reps.append((m, g.loc(t["ln"])))
+    key = "Document::contraction-pattern"
+    if reps:
+        ck.refuted(rule, key, f.loc(reps[0][1]) if False else reps[0][1], "the contraction pattern contains a repetition step (%s): the matcher is greedy and does not backtrack, so when the contraction is directly followed by another apostrophe - a closing single quote, as in 'it isn't' - the repetition takes `t'` as one more piece, the final word is missing and nothing is glued: `isn` and `t` stay separate tokens and a word the dictionary lists is reported as misspelt" % ", ".join(sorted({m for m, _ in reps})))
+    elif steps:
+        ck.proved(rule, key, f.span, "sequence of single-token steps: %s" % steps)
+    else:
+        ck.undecided(rule, key, f.span, "the contraction pattern is not built from SequencePattern steps here; its shape is not decided")
